@@ -753,7 +753,7 @@ PROPS = {
         "C10", "runtime monitor over error reports: bounds, prefix, stability; truthfulness against the reference interpreter's attempt trace (hook trace used to detect diverged executions)",
         "Every rejected case: location on a boundary inside the input and not before the matched prefix, line/col equal to pest::Position's, rendering does not panic and is stable across runs; Tracker::finish() obtained with an explicit tracker equals the rendered lists, and every rule listed expected (unexpected) has a failing (matching) attempt at that position in refpeg's trace.",
         "truthfulness is only judged when every tracked attempt of the real run also occurs in the model trace (otherwise the executions diverged; counted as inconclusive for that case)",
-        {"error_reports_checked": 100000, "expected_rules_checked": 50000, "unexpected_rules_checked": 20}),
+        {"error_reports_checked": 100000, "expected_rules_checked": 50000, "unexpected_rules_checked": 20, "c10_display_lists_compared": 50000}),
     "C15": harness_prop(
         "C15", "runtime monitor: traversal helpers vs own DFS/BFS over the token tree",
         "For every accepted case of a non-silent rule: children() vs as_token().children, as_thin_token vs as_token, span(), pre-order with depths vs own DFS, level-order vs own BFS, format_as_tree vs own rendering, callback-error propagation, nesting and sibling order of spans.",
@@ -858,7 +858,7 @@ PROPS = {
         "required": {"strings": 9000, "many_line_inputs": 40, "positions_at_end": 1000, "empty_spans": 1000,
                      "nonempty_spans": 1000, "rendered_custom": 1000},
         "assumptions": [
-            "the rendering keeps the `<number> | <text>` / `| <markers>` layout; a layout change makes the oracle report 'unparseable' rather than guess",
+            "the rendering keeps the `<number> | <text>` / `| <markers>` layout; a layout change makes the run INCONCLUSIVE ('unparseable_layout') rather than guess or alarm",
             "cell widths follow unicode-width's width_cjk (the convention the library itself uses)",
             "FormatOption is reached through the verif-hooks re-export (it is not nameable from outside the crate otherwise)",
         ],
